@@ -365,7 +365,7 @@ func main() {
 	for _, x := range regexes {
 		seenRe[x] = true
 	}
-	for tries := 0; len(regexes) < len(fixedRegexes)+ctx.N(40, 300) && tries < 100000; tries++ {
+	for tries := 0; len(regexes) < len(fixedRegexes)+ctx.N(40, 120) && tries < 100000; tries++ {
 		x := genRegex(r, r.Range(1, 3))
 		if seenRe[x] || len(x) > 40 {
 			continue
@@ -382,7 +382,7 @@ func main() {
 		n := utf8.RuneCountInString(s)
 		for ri, re := range regexes {
 			switch {
-			case ctx.Thorough && n <= 3:
+			case ctx.Thorough && n <= 2:
 				for _, fl := range flagSets[:5] {
 					triples = append(triples, triple{s, re, fl})
 				}
@@ -395,7 +395,7 @@ func main() {
 				if !ctx.Thorough && n == 3 && (si+ri)%3 != 0 {
 					continue
 				}
-				if ctx.Thorough && n == 4 && (si+ri)%4 != 0 {
+				if ctx.Thorough && n == 4 && (si+ri)%6 != 0 {
 					continue
 				}
 				triples = append(triples, triple{s, re, flagSets[(si/3+ri)%len(flagSets)]})
@@ -420,7 +420,7 @@ func main() {
 	}
 
 	stM := ctx.NewStream("match", "Gojq.Regex.funcMatch / mkMatches / Match.toJV / matchesOK (Model/Regex.lean) = funcMatch's byte->code-point conversion and object construction",
-		"[match($re; $flags)] through the public API vs the model fed with Go regexp's FindAllStringSubmatchIndex/SubexpNames for the syntax compileRegexp builds; subjects: every string over {a,b,A,é,漢,😀,U+0301,LF,space} up to length 3 (4 thorough; the longest length subsampled) x hand-picked + random grammar regexes x flag sets among null,g,i,gi,m,gm,ig; random subjects of length up to 14; 42 cases on invalid UTF-8; distinct = distinct implementation answers")
+		"[match($re; $flags)] through the public API vs the model fed with Go regexp's FindAllStringSubmatchIndex/SubexpNames for the syntax compileRegexp builds; subjects: every string over {a,b,A,é,漢,😀,U+0301,LF,space} up to length 3 (4 thorough; the longest length subsampled: a third in quick, a sixth in thorough) x hand-picked + random grammar regexes x flag sets among null,g,i,gi,m,gm,ig; random subjects of length up to 14; 42 cases on invalid UTF-8; distinct = distinct implementation answers")
 	stB := ctx.NewStream("builtin", "Gojq.Regex.{test,capture,scan,splits,split2,sub,gsub,capturesKvs,sliceStr} (Model/Regex.lean) = builtin.jq's definitions over the match list + funcCaptures",
 		"test, [capture], [scan], [splits], split/2, [sub], [gsub] through the public API vs the model's folds over the same raw engine answer; sub/gsub with 5 replacement filters (constant, .name, two-output generator, sometimes-empty generator, interpolation), on the regex and on the regex wrapped in (?<zz>…); distinct = distinct implementation answers")
 	orc := ctx.NewOracle("laws", "per (subject, regex, flags): 9 laws evaluated as jq booleans on the real code — offsets (slice by offset/length returns string, for matches and captures), ordered, first (non-global match = first global match), test, scan, splits (interleave rebuilds subject, split/2 agrees), gsubself, subself, capture; distinct = distinct triples whose global match list is non-empty")
@@ -457,7 +457,15 @@ func main() {
 		return rx.FindAllStringSubmatchIndex(s, n), rx.SubexpNames(), true
 	}
 
+	flush := func(force bool) {
+		if force || len(linesB) > 300000 {
+			ctx.RunStream(stM, linesM, implM)
+			ctx.RunStream(stB, linesB, implB)
+			linesM, implM, linesB, implB = nil, nil, nil, nil
+		}
+	}
 	for ti, t := range triples {
+		flush(false)
 		s, re, flags := t.s, t.re, t.flags
 		raw, names, ok := find(re, flags, s)
 		if !ok {
@@ -602,8 +610,7 @@ func main() {
 	orc.Samples = []string{`"aé漢" | gsub("(?<zz>[^a])"; .zz) == .`, `"😀a" | [match("a")] | .[0].offset == 1`, `"ab" | [splits("x*")] == ["","a","b",""]`}
 	e.term.Distinct = len(triples)
 	e.term.Samples = []string{"max VM steps used by one builtin run: " + fmt.Sprint(e.maxPolls) + " at " + e.maxPollsAt}
-	ctx.RunStream(stM, linesM, implM)
-	ctx.RunStream(stB, linesB, implB)
+	flush(true)
 	ctx.Res.Notes = append(ctx.Res.Notes,
 		fmt.Sprintf("triples: %d (%d from the exhaustive subject grid), regexes: %d (%d hand-picked)", len(triples), exhaustiveTriples, len(regexes), len(fixedRegexes)),
 		fmt.Sprintf("MatchesOK held on %d of %d engine answers for valid-UTF-8 subjects (must be all); %d answers for invalid subjects fed with MatchesOK false", okValid, validCount, len(triples)-validCount),
@@ -634,7 +641,7 @@ func checkLaws(ctx *common.Ctx, o common.Outcome, kind, query, s string, vars ma
 		js, _ := json.Marshal(s)
 		ctx.Violate(kind+":"+law+":"+keyTail, fmt.Sprintf("law %s fails on subject %q with %v: %s", law, s, vars, what),
 			map[string]any{"law": law, "kind": kind, "subject": s, "subject_hex": common.Hex(s), "vars": vars, "observed": what, "query": query,
-				"cmd": fmt.Sprintf("gojq -n --argjson s '%s'%s '$s | (%s) | .%s'   # expected: true", js, args, "<query>", law)})
+				"cmd": fmt.Sprintf("gojq -n --argjson s '%s'%s '$s | (%s) | .%s'   # expected: true", js, args, strings.Join(strings.Fields(query), " "), law)})
 	}
 	switch {
 	case o.Panic != "":
